@@ -445,3 +445,5 @@ REPLAY = {}
 # further property groups register themselves in RUN / ONE / REPLAY
 import p_c04  # noqa
 import p_c10  # noqa
+import p_c11  # noqa
+import p_c05  # noqa
